@@ -33,6 +33,8 @@ WITNESSES = {
  "C03-captured-parentloop-aliased": prog(False, [("ca", [F("a", var("xs"), [comp("c0", [F("b", var("one"), [fill("s1", [O("forloop", "parentloop", "counter")])])])])], []),
                                                   ("c0", [T("["), slot("s1", []), T("]")], [])],
      [comp("ca")], [["xs", {"l": [sval("p"), sval("q")]}], ["one", {"l": [sval("o")]}]]),
+ "C03-default-alias-sees-fill-aliases": prog(True, [("c0", [slot("s2", [T("("), slot("s3", [T("-")]), T(")")], data=[["k1", lit("v")]])], [])],
+     [W("a", lit("A"), [comp("c0", [fill("s2", [O("df")], data="a", dflt="df"), fill("s3", [T("["), O("a"), T("]")])])])]),
  "C05-page-level-provider-siblings": prog(True, [("c0", [O("g", "k1")], [["g", {"inject": "pk", "dflt": None}]])],
      [P("pk", [["k1", lit("V")]], [comp("c0"), comp("c0")])]),
 }
